@@ -69,17 +69,27 @@ def tlc(module, cfg, workers=None, simulate=None, depth=None, seed=None, timeout
         e.update(env or {})
         if deque:
             e["JAVA_TOOL_OPTIONS"] = (e.get("JAVA_TOOL_OPTIONS", "") + " -Dtlc2.tool.queue.IStateQueue=StateDeque").strip()
+        if "-Xmx" not in e.get("JAVA_TOOL_OPTIONS", ""):
+            # the JVM default (25 % of the RAM per TLC) lets a handful of concurrent checks exhaust the machine
+            e["JAVA_TOOL_OPTIONS"] = (e.get("JAVA_TOOL_OPTIONS", "") + " -Xmx" + os.environ.get("VERIF_TLC_XMX", "10g")).strip()
         res.cmd = " ".join(cmd)
         t0 = time.time()
-        try:
-            p = subprocess.run(cmd, cwd=work, env=e, stdout=subprocess.PIPE, stderr=subprocess.STDOUT, timeout=timeout, text=True)
-            out = p.stdout
-            rc = p.returncode
-        except subprocess.TimeoutExpired as ex:
-            out = (ex.stdout or b"").decode() if isinstance(ex.stdout, bytes) else (ex.stdout or "")
-            subprocess.run(["pkill", "-f", work], check=False)
-            res.error = "TLC timeout after %ds" % timeout
-            rc = -1
+        for attempt in (1, 2):
+            try:
+                p = subprocess.run(cmd, cwd=work, env=e, stdout=subprocess.PIPE, stderr=subprocess.STDOUT, timeout=timeout, text=True)
+                out = p.stdout
+                rc = p.returncode
+            except subprocess.TimeoutExpired as ex:
+                out = (ex.stdout or b"").decode() if isinstance(ex.stdout, bytes) else (ex.stdout or "")
+                subprocess.run(["pkill", "-f", work], check=False)
+                res.error = "TLC timeout after %ds" % timeout
+                rc = -1
+            if rc in (-9, 137) and attempt == 1:
+                # killed from outside (out-of-memory killer while other checks run, a stray pkill): once more
+                shutil.rmtree(os.path.join(work, "md"), ignore_errors=True)
+                time.sleep(10)
+                continue
+            break
         res.wall = time.time() - t0
         res.raw = out
         for line in out.splitlines():
